@@ -450,8 +450,12 @@ func (s *Store) readRoots() error {
 func (s *Store) readRootsScan(defaultToEmpty bool) (err error) {
 	rootsEnd := make([]byte, rootsEndLen)
 	for {
-		if err := s.scanBackwardsForMagicEnd(rootsEnd, defaultToEmpty); err != nil {
+		found, err := s.scanBackwardsForMagicEnd(rootsEnd, defaultToEmpty)
+		if err != nil {
 			return err
+		}
+		if !found {
+			return nil // No roots left: defaulted to an empty store.
 		}
 		offset, length, err := s.readRootsEnd(rootsEnd)
 		if err != nil {
@@ -468,17 +472,20 @@ func (s *Store) readRootsScan(defaultToEmpty bool) (err error) {
 	}
 }
 
-func (s *Store) scanBackwardsForMagicEnd(rootsEnd []byte, defaultToEmpty bool) error {
+// Returns true when rootsEnd holds a candidate roots trailer ending at
+// s.size, and false (with s.size reset to 0) when the scan reached the
+// start of the file and defaultToEmpty allows an empty store.
+func (s *Store) scanBackwardsForMagicEnd(rootsEnd []byte, defaultToEmpty bool) (bool, error) {
 	for {
 		if atomic.LoadInt64(&s.size) <= rootsLen {
 			if defaultToEmpty {
 				atomic.StoreInt64(&s.size, 0)
-				return nil
+				return false, nil
 			}
-			return errors.New("couldn't find roots; file corrupted or wrong?")
+			return false, errors.New("couldn't find roots; file corrupted or wrong?")
 		}
 		if _, err := s.file.ReadAt(rootsEnd, atomic.LoadInt64(&s.size)-int64(len(rootsEnd))); err != nil {
-			return err
+			return false, err
 		}
 		if bytes.Equal(MagicEnd, rootsEnd[8+4:8+4+len(MagicEnd)]) &&
 			bytes.Equal(MagicEnd, rootsEnd[8+4+len(MagicEnd):]) {
@@ -486,7 +493,7 @@ func (s *Store) scanBackwardsForMagicEnd(rootsEnd []byte, defaultToEmpty bool) e
 		}
 		atomic.AddInt64(&s.size, -1) // TODO: optimizations to scan backwards faster.
 	}
-	return nil
+	return true, nil
 }
 
 func (s *Store) readRootsEnd(rootsEnd []byte) (int64, uint32, error) {
